@@ -144,6 +144,15 @@ func errID(e error) int {
 	case *multiIdErr:
 		return v.id
 	}
+	// an error the library wrapped with context (%w) still reports the one that was raised: all three shapes alike
+	var me *multiIdErr // first: its kids are idErr values, which the search below would otherwise find
+	if errors.As(e, &me) {
+		return me.id
+	}
+	var pe *ptrIdErr
+	if errors.As(e, &pe) {
+		return pe.id
+	}
 	var ie idErr
 	if errors.As(e, &ie) {
 		return ie.id
@@ -795,6 +804,9 @@ func (x *Exec) identify(po tabular.PropertyOwner) string {
 		}
 		// otherwise an unknown row pointer can only be the header row of the table being rendered
 		if id, ok := x.hdrOf[x.curTable]; ok {
+			if !sameBacking(v.Cells(), x.tables[x.curTable].Headers()) {
+				return "r:NOT-LIVE" // not the header row the table holds
+			}
 			x.rowID[v] = id
 			x.rows[id] = v
 			return fmt.Sprintf("r:%d", id)
@@ -1260,9 +1272,15 @@ func (x *Exec) do1(line string) (res string, leanLine string) {
 		x.hdrOf[t] = id
 		x.pending = id
 		defer func() { x.pending = -1 }()
-		x.tables[t].AddHeaders(its...)
+		if ret := x.tables[t].AddHeaders(its...); ret != tabular.Table(x.tables[t]) {
+			return fmt.Sprintf("R%d !badchain", id), line
+		}
 		if !sameItems(its, x, toks[2]) {
-			return "CALLER-SLICE-MODIFIED", line
+			return fmt.Sprintf("R%d !CALLER-SLICE-MODIFIED", id), line
+		}
+		if r := x.rows[id]; r != nil && !sameBacking(r.Cells(), x.tables[t].Headers()) {
+			// a callback was shown a row that is not the header row the table holds
+			return fmt.Sprintf("R%d !ROW-NOT-LIVE", id), line
 		}
 		return fmt.Sprintf("R%d", id), line
 	case "addrowitems":
@@ -1277,16 +1295,22 @@ func (x *Exec) do1(line string) (res string, leanLine string) {
 		id := x.newRowID(nil)
 		x.pending = id
 		defer func() { x.pending = -1 }()
-		x.tables[t].AddRowItems(its...)
+		flag := ""
+		if ret := x.tables[t].AddRowItems(its...); ret != tabular.Table(x.tables[t]) {
+			flag = " !badchain"
+		}
 		if !sameItems(its, x, toks[2]) {
-			return "CALLER-SLICE-MODIFIED", line
+			flag = " !CALLER-SLICE-MODIFIED"
 		}
 		all := x.tables[t].AllRows()
 		if len(all) == before+1 {
+			if r := x.rows[id]; r != nil && r != all[before] {
+				flag = " !ROW-NOT-LIVE" // a callback was shown a row that is not the one the table holds
+			}
 			x.rows[id] = all[before]
 			x.rowID[all[before]] = id
 		}
-		return fmt.Sprintf("R%d", id), line
+		return fmt.Sprintf("R%d%s", id, flag), line
 	case "newrow":
 		return fmt.Sprintf("R%d", x.newRowID(tabular.NewRow())), line
 	case "newrowsized":
@@ -1300,9 +1324,16 @@ func (x *Exec) do1(line string) (res string, leanLine string) {
 		x.pending = id
 		defer func() { x.pending = -1 }()
 		r := x.tables[t].AppendNewRow()
+		flag := ""
+		if seen := x.rows[id]; seen != nil && seen != r {
+			flag = " !ROW-NOT-LIVE" // a callback was shown a row that is not the one handed back
+		}
+		if all := x.tables[t].AllRows(); len(all) == 0 || all[len(all)-1] != r {
+			flag = " !ROW-NOT-LIVE" // the row handed back is not the one the table holds
+		}
 		x.rows[id] = r
 		x.rowID[r] = id
-		return fmt.Sprintf("R%d", id), line
+		return fmt.Sprintf("R%d%s", id, flag), line
 	case "rowadd":
 		x.rows[idOf(toks[1])].Add(tabular.NewCell(x.items[idOf(toks[2])]))
 		return "ok", line
@@ -1323,11 +1354,17 @@ func (x *Exec) do1(line string) (res string, leanLine string) {
 		id := x.newRowID(nil)
 		x.pending = id
 		defer func() { x.pending = -1 }()
-		x.tables[t].AddSeparator()
+		flag := ""
+		if ret := x.tables[t].AddSeparator(); ret != tabular.Table(x.tables[t]) {
+			flag = " !badchain"
+		}
 		all := x.tables[t].AllRows()
+		if seen := x.rows[id]; seen != nil && seen != all[len(all)-1] {
+			flag = " !ROW-NOT-LIVE"
+		}
 		x.rows[id] = all[len(all)-1]
 		x.rowID[all[len(all)-1]] = id
-		return fmt.Sprintf("R%d", id), line
+		return fmt.Sprintf("R%d%s", id, flag), line
 	case "rowadderr":
 		for _, e := range parseErrs(toks[2]) {
 			x.rows[idOf(toks[1])].AddError(e)
@@ -1573,7 +1610,8 @@ func (x *Exec) do1(line string) (res string, leanLine string) {
 		}
 		return showErrs(es), line
 	}
-	return "bad-op", line
+	// never equal to the model's "bad-op": an operation neither side implements is a difference, not an agreement
+	return "BAD-OP", line
 }
 
 var lastChunks = map[int][]int{}
@@ -1590,6 +1628,18 @@ var (
 	builtinOnce sync.Once
 	builtinList []string
 )
+
+// sameBacking reports whether two cell slices are the same slice (length and first element): how a *Row the
+// library showed a callback is told from a copy of the row the table really holds
+func sameBacking(a, b []tabular.Cell) bool {
+	if len(a) != len(b) {
+		return false
+	}
+	if len(a) == 0 {
+		return true
+	}
+	return &a[0] == &b[0]
+}
 
 func builtinNames() []string {
 	builtinOnce.Do(func() { builtinList = decoration.RegisteredDecorationNames() })
